@@ -691,8 +691,20 @@ func (g *gen) next(ins *ssa.Next) {
 	it := g.val(ins.Iter)
 	tup := ins.Type().(*types.Tuple)
 	ok := g.freshVal("next_ok", types.Typ[types.Bool])
-	k := g.freshVal("next_k", tup.At(1).Type())
-	v := g.freshVal("next_v", tup.At(2).Type())
+	kt, vt := tup.At(1).Type(), tup.At(2).Type()
+	if it.Typ != nil {
+		if mt, isMap := it.Typ.Underlying().(*types.Map); isMap {
+			// unused components are typed "invalid" by go/ssa: fall back to the map's own types
+			if b, bad := kt.(*types.Basic); bad && b.Kind() == types.Invalid {
+				kt = mt.Key()
+			}
+			if b, bad := vt.(*types.Basic); bad && b.Kind() == types.Invalid {
+				vt = mt.Elem()
+			}
+		}
+	}
+	k := g.freshVal("next_k", kt)
+	v := g.freshVal("next_v", vt)
 	if ins.IsString {
 		g.assume(implies(ok.T, and(app("<=", "0", k.T), app("<", k.T, app("str.len", it.T)))))
 	} else if it.Typ != nil {
